@@ -58,6 +58,8 @@ def run(ctx):
         for ln in lines[:20000]:
             ctx.seen(ln.split('"e":', 1)[1][:50])
         rej = ctx.validate("Cache/ConcTrace.tla", "ConcTrace.cfg", srt, dfs=True, timeout=900)
+        if n == 1 and not rej:
+            ctx.binding_selftest("Cache/ConcTrace.tla", "ConcTrace.cfg", srt, [("drop-unlock", drop_first('"e":"Unlock","m":"wr"')), ("wrong-ret-value", wrong_ret), ("drop-lin", drop_first('"e":"Lin","op":"store"'))], dfs=True)
         for x in rej:
             ev = x["event"]
             kind = "lock-discipline" if '"Lock"' in ev or '"Unlock"' in ev else ("stuck" if '"Stuck"' in ev else ("lin" if '"Lin"' in ev else "ret"))
@@ -67,6 +69,24 @@ def run(ctx):
         tsan(ctx)
     ctx.extra["rule"] = ("executions = rounds of N threads x M random operations on one shared cache; events = Inv/Lock/Lin/Unlock/Ret lines validated; "
                          "distinct = distinct event texts (without seq/tid) among the first 20000 of each run")
+
+
+def drop_first(pat):
+    def f(lines):
+        for i, ln in enumerate(lines):
+            if pat in ln and i > 20:
+                return lines[:i] + lines[i + 1:]
+        return None
+    return f
+
+
+def wrong_ret(lines):
+    import re as _re
+    for i, ln in enumerate(lines):
+        if '"e":"Ret","hit":true' in ln:
+            lines[i] = _re.sub(r'"v":(-?\d+)', lambda m: '"v":%d' % (int(m.group(1)) + 7), ln, 1)
+            return lines
+    return None
 
 
 def tsan(ctx):
